@@ -115,7 +115,7 @@ class CellResolutionAttribute:
 
   qn = f"{{{ns.TTP}}}cellResolution"
 
-  _CELL_RESOLUTION_RE = re.compile(r"(\d+) (\d+)")
+  _CELL_RESOLUTION_RE = re.compile(r"(\d+) (\d+)", re.ASCII)
 
   @staticmethod
   def extract(ttml_element) -> model.CellResolutionType:
@@ -246,7 +246,7 @@ class TickRateAttribute:
 
   qn = f"{{{ns.TTP}}}tickRate"
 
-  _TICK_RATE_RE = re.compile(r"(\d+)")
+  _TICK_RATE_RE = re.compile(r"(\d+)", re.ASCII)
 
   @staticmethod
   def extract(ttml_element) -> int:
@@ -277,7 +277,7 @@ class AspectRatioAttribute:
 
   qn = f"{{{ns.ITTP}}}aspectRatio"
 
-  _re = re.compile(r"(\d+) (\d+)")
+  _re = re.compile(r"(\d+) (\d+)", re.ASCII)
 
   @staticmethod
   def extract(ttml_element) -> typing.Optional[Fraction]:
@@ -309,7 +309,7 @@ class DisplayAspectRatioAttribute:
 
   qn = f"{{{ns.TTP}}}displayAspectRatio"
 
-  _re = re.compile(r"(\d+) (\d+)")
+  _re = re.compile(r"(\d+) (\d+)", re.ASCII)
 
   @staticmethod
   def extract(ttml_element) -> typing.Optional[Fraction]:
@@ -350,9 +350,9 @@ class FrameRateAttribute:
 
   frame_rate_multiplier_qn = f"{{{ns.TTP}}}frameRateMultiplier"
 
-  _FRAME_RATE_RE = re.compile(r"(\d+)")
+  _FRAME_RATE_RE = re.compile(r"(\d+)", re.ASCII)
 
-  _FRAME_RATE_MULT_RE = re.compile(r"(\d+) (\d+)")
+  _FRAME_RATE_MULT_RE = re.compile(r"(\d+) (\d+)", re.ASCII)
 
   @staticmethod
   def is_specified(ttml_element) -> bool:
